@@ -136,13 +136,19 @@ def worker_init():
 
 
 # ------------------------------------------------------------------ cases
-def _rand_evse(rng):
+def _rand_evse(rng, long_ok=False):
     k = rng.choice(["EVSE", "DB", "FR"])
     if k == "EVSE":
         return {"t": "EVSE", "min": rng.choice([0, 0, 6, 2.5]), "max": rng.choice([16, 32, 80, float("inf"), 7.3, 4e6, 1e9])}
     if k == "DB":
         return {"t": "DB", "end": rng.choice([6, 4.5, 8]), "max": rng.choice([16, 32, float("inf"), 2.5e6])}
     r = rng.random()
+    if r < 0.02 and long_ok:
+        # hundreds to thousands of allowable levels (a fine-grained charger), in shuffled order
+        n_ = rng.choice([300, 1025, 2500])
+        rates = [round(0.05 * k_, 2) for k_ in range(n_)]
+        rng.shuffle(rates)
+        return {"t": "FR", "rates": rates, "form": rng.choice(["list", "array", "tuple"])}
     if r < 0.06:
         # stand-ins for "unlimited" in an on/off list, very small rates: the 1e-3 A band is absolute at every magnitude
         rates = rng.choice([[0, 4e6], [0, 1e9], [1e7, 32, 0], [0.002, 0.0045, 6], [0, 123456.789]])
@@ -176,7 +182,7 @@ def cases(seed, tier):
     nb, nn = (1500, 150) if tier == "quick" else (100000, 6000)
     out = []
     for i in range(nb):
-        e = _rand_evse(rng)
+        e = _rand_evse(rng, long_ok=True)
         out.append({"kind": "direct", "evse": e, "with_ev": rng.random() < 0.5, "n": 60, "seed": rng.randrange(1 << 30)})
     for i in range(nn):
         out.append({"kind": "advert", "seed": rng.randrange(1 << 30)})
